@@ -267,7 +267,7 @@ def run(tier, seed):
                      "universes (accepted walks and walks rejected by exactly one clause) and seeded random universes; "
                      "distinct = distinct (projected universe, start, real walk)")
     if c.cov["accepted_runs"] == 0:
-        raise vlib.ToolError("vacuity: the real verifier accepted nothing")
+        c.defer("vacuity: the real verifier accepted nothing")
     return c.finish()
 
 
